@@ -36,7 +36,9 @@ type Real64 struct {
 var Real64Type ScalarType = NewReal64(0.0).Type()
 func init() {
   f := func(value float64) Scalar { return NewReal64(float64(value)) }
+  g := func(value float64) MagicScalar { return NewReal64(float64(value)) }
   RegisterScalar(Real64Type, f)
+  RegisterMagicScalar(Real64Type, g)
 }
 /* constructors
  * -------------------------------------------------------------------------- */
@@ -79,7 +81,7 @@ func (a *Real64) ConvertScalar(t ScalarType) Scalar {
   default:
     r := NullScalar(t)
     r.Set(a)
-    return a
+    return r
   }
 }
 func (a *Real64) ConvertMagicScalar(t ScalarType) MagicScalar {
@@ -87,9 +89,9 @@ func (a *Real64) ConvertMagicScalar(t ScalarType) MagicScalar {
   case Real64Type:
     return a
   default:
-    r := NullScalar(t)
+    r := NullMagicScalar(t)
     r.Set(a)
-    return a
+    return r
   }
 }
 func (a *Real64) ConvertConstScalar(t ScalarType) ConstScalar {
